@@ -1,13 +1,13 @@
-//! scratch probe (not a registered check)
+//! scratch probe (not a registered check): run the pipeline on files given as args (module name = file stem, std added)
 fn main() {
+  vcore::pool::install_hook();
   let a: Vec<String> = std::env::args().collect();
-  let kind = a.get(1).map(|s| s.as_str()).unwrap_or("if");
-  for d in [4usize, 8, 12, 14, 16, 18, 20, 22] {
-    let text = vcore::mutate::ladder(kind, d);
-    let t0 = std::time::Instant::now();
-    let r = vcore::pipeline::run(&[("Main".into(), text.clone())], false, false);
-    let t1 = t0.elapsed();
-    let r2 = vcore::pipeline::run(&[("Main".into(), text)], false, true);
-    println!("{kind} depth {d}: parse+check {:?}, +format {:?} syn={} oth={} panic={:?}", t1, t0.elapsed() - t1, r.syntax_errors, r.other_errors, r2.panic);
+  let corpus = vcore::corpus::Corpus::load();
+  for f in &a[1..] {
+    let text = std::fs::read_to_string(f).unwrap();
+    let mut mods = vec![("Main".to_string(), text)];
+    mods.extend(corpus.std.iter().cloned());
+    let r = vcore::pipeline::run(&mods, true, true);
+    println!("{f}: syn={} oth={} kinds={:?} compiled={:?} panic={:?} silent={:?}", r.syntax_errors, r.other_errors, r.diag_kinds, r.compiled, r.panic, r.silent_recovery);
   }
 }
